@@ -10,4 +10,5 @@ CONSTANTS
   Bug = "none"
 VIEW View
 INVARIANTS InsertNoDup InsertKeys InsertMerged OneShardPerKey
+ACTION_CONSTRAINT Export
 CHECK_DEADLOCK FALSE
